@@ -99,7 +99,8 @@ def id_star(graph: NxMixedGraph, event: Event, *, _number_recursions: int = 0) -
         raise ConflictUnidentifiable(cf_subgraph, new_event, conflicts)
 
     # Line 9
-    return id_star_line_9(cf_subgraph)
+    # the effect is on all variables of the (single) district, the ones that are not part of the event are summed out
+    return Sum.safe(id_star_line_9(cf_subgraph), get_free_variables(cf_subgraph, new_event))
 
 
 class ConflictUnidentifiable(Unidentifiable):
